@@ -332,3 +332,13 @@ def run(facts, rep, ctx):
     _run_before_round5(facts, rep, ctx)
     from . import round5
     round5.et1(facts, rep)
+
+
+_run_before_round6 = run
+
+
+def run(facts, rep, ctx):
+    """rules added after the fifth seeding round (rules/round6.py)"""
+    _run_before_round6(facts, rep, ctx)
+    from . import round6
+    round6.cf2(facts, rep, ['pattern_matching::shift_and::', 'pattern_matching::bndm::', 'pattern_matching::bom::', 'pattern_matching::horspool::', 'pattern_matching::kmp::'], 50)
